@@ -1,8 +1,11 @@
 package remote
 
 import (
+	"bytes"
 	"context"
+	"errors"
 	"fmt"
+	"io"
 	"net"
 	"sort"
 	"strconv"
@@ -35,6 +38,10 @@ import (
 //   l = non-ASCII local part       ю1@d0.example           (not convertible)
 //   c / d = composed / decomposed  é1@d0.example           (NFC / NFD spelling of one mailbox)
 //   C = upper-case composed        É1@d0.example
+//   t = absolute domain (root dot) u1@d0.example.          (address.Split / CleanDomain keep the dot;
+//   T = upper-case absolute        U1@D0.EXAMPLE.           a connection key of its own)
+//   j = absolute U-label domain    u1@пример0.example.     (convertible)
+//   y = absolute A-label domain    u1@xn--0-itbmn9a5a.example.
 func c09IDN(dom int) string { return fmt.Sprintf("пример%d.example", dom) }
 
 func c09Addr(mbox, dom int, form byte) string {
@@ -57,6 +64,15 @@ func c09Addr(mbox, dom int, form byte) string {
 		return fmt.Sprintf("e\u0301%d@d%d.example", mbox, dom)
 	case 'C':
 		return fmt.Sprintf("\u00c9%d@d%d.example", mbox, dom)
+	case 't':
+		return fmt.Sprintf("u%d@d%d.example.", mbox, dom)
+	case 'T':
+		return fmt.Sprintf("U%d@D%d.EXAMPLE.", mbox, dom)
+	case 'j':
+		return fmt.Sprintf("u%d@%s.", mbox, c09IDN(dom))
+	case 'y':
+		a, _ := idna.ToASCII(c09IDN(dom))
+		return fmt.Sprintf("u%d@%s.", mbox, a)
 	case 'u':
 		return fmt.Sprintf("U%d@D%d.EXAMPLE", mbox, dom)
 	case 'U':
@@ -76,6 +92,94 @@ type c09Rcpt struct {
 type c09Tx struct {
 	rcpts []c09Rcpt
 	df    string // "0" no DATA failure, "1" everywhere, "d<digits>" for the listed domain numbers
+	// the message body: "-" a buffer that works; "o<k>" Open works k times, then fails (the spool file
+	// vanished, EMFILE, ...); "m<k>" the reader handed out by the k-th Open (0-based) fails mid-way;
+	// "q" the message is quarantined after the recipients were added (BodyNonAtomic refuses it)
+	buf string
+	src string // "<rcpts>:<df>" as in the op
+}
+
+// c09Buffer is the message buffer of one transaction. BodyNonAtomic opens it once per connection,
+// from one goroutine per connection: WHICH connection meets the failing Open / gets the failing reader
+// is up to the scheduler. The harness observes it (the sentinel errors come back in the statuses) and
+// passes it to the model as the oracle field of the op.
+type c09Buffer struct {
+	mu         sync.Mutex
+	okOpens    int // -1: Open always works
+	badReader  int // index of the Open whose reader fails mid-way, -1: none
+	opens      int
+	failedOpen int
+	readErrs   int
+}
+
+var (
+	errC09Open = errors.New("verif spool: cannot open the message body")
+	errC09Read = errors.New("verif spool: read error in the message body")
+)
+
+var c09Body = []byte("first line\r\nsecond line\r\n")
+
+type c09BadReader struct {
+	b    *c09Buffer
+	sent bool
+}
+
+func (r *c09BadReader) Read(p []byte) (int, error) {
+	if !r.sent {
+		r.sent = true
+		return copy(p, c09Body[:12]), nil
+	}
+	r.b.mu.Lock()
+	r.b.readErrs++
+	r.b.mu.Unlock()
+	return 0, errC09Read
+}
+func (r *c09BadReader) Close() error { return nil }
+
+func (b *c09Buffer) Open() (io.ReadCloser, error) {
+	b.mu.Lock()
+	defer b.mu.Unlock()
+	i := b.opens
+	b.opens++
+	if b.okOpens >= 0 && i >= b.okOpens {
+		b.failedOpen++
+		return nil, errC09Open
+	}
+	if i == b.badReader {
+		return &c09BadReader{b: b}, nil
+	}
+	return io.NopCloser(bytes.NewReader(c09Body)), nil
+}
+func (b *c09Buffer) Len() int      { return len(c09Body) }
+func (b *c09Buffer) Remove() error { return nil }
+
+func c09IsBodyErr(err error) bool {
+	return err != nil && (errors.Is(err, errC09Open) || errors.Is(err, errC09Read) || strings.Contains(err.Error(), "verif spool:"))
+}
+
+// c09ConnKey is the key of remoteDelivery.connections as the model numbers it: the domain AS SPELLED
+// (domain number * 16 + spelling class of the form).
+func c09ConnKey(dom int, form byte) int {
+	cls := 0
+	switch form {
+	case 'u':
+		cls = 1
+	case 'i', 'I':
+		cls = 2
+	case 'x':
+		cls = 3
+	case 'X':
+		cls = 4
+	case 't':
+		cls = 5
+	case 'T':
+		cls = 6
+	case 'j':
+		cls = 7
+	case 'y':
+		cls = 8
+	}
+	return dom*16 + cls
 }
 
 func (tx c09Tx) dataFails(dom int) bool {
@@ -93,7 +197,9 @@ type c09Collector struct {
 	st []string
 }
 
-// op: C09 remote <utf8> <tx>;<tx>   tx = <id>.<dom>.<form>.<act>[.<mbox>],...:<df>
+// op: C09 remote <utf8> <tx>;<tx>   tx = <id>.<dom>.<form>.<act>[.<mbox>],...:<df>[:<buf>[:<oracle>]]
+// (buf: see c09Tx; oracle = the connection keys hit by the failing Open / reader as OBSERVED in the run,
+// "+"-separated, "-" = none: written by the harness into the op it reports, ignored on input)
 // (mbox defaults to id). The same id may occur several times in one transaction: the very same
 // address string is added again (exact duplicate), every occurrence with its own RCPT answer.
 // The second result says whether the history uses anything the go-smtp based scripted server
@@ -103,8 +209,12 @@ func c09Parse(s string) ([]c09Tx, bool) {
 	raw := false
 	for _, ts := range strings.Split(s, ";") {
 		parts := strings.Split(ts, ":")
-		tx := c09Tx{df: parts[1]}
+		tx := c09Tx{df: parts[1], buf: "-", src: parts[0] + ":" + parts[1]}
 		if tx.df != "0" && tx.df != "1" {
+			raw = true
+		}
+		if len(parts) > 2 && parts[2] != "" && parts[2] != "-" {
+			tx.buf = parts[2]
 			raw = true
 		}
 		for _, rs := range strings.Split(parts[0], ",") {
@@ -131,21 +241,26 @@ func c09Parse(s string) ([]c09Tx, bool) {
 	return out, raw
 }
 
-// c09Wire maps an address as it arrived at the next hop to "<mailbox>@<domain number><i|a>".
+// c09Wire maps an address as it arrived at the next hop to "<mailbox>@<domain number><i|a>[.]"
+// (the final dot: the domain arrived in absolute form).
 func c09Wire(a string) string {
 	at := strings.LastIndex(a, "@")
 	if at < 0 {
 		return "?" + vh.HexRunes(a)
 	}
 	local, dom := a[:at], strings.ToLower(a[at+1:])
+	abs := ""
+	if strings.HasSuffix(dom, ".") {
+		dom, abs = strings.TrimSuffix(dom, "."), "."
+	}
 	digits := strings.TrimLeftFunc(local, func(r rune) bool { return r < '0' || r > '9' })
 	for d := 0; d < 4; d++ {
 		ia, _ := idna.ToASCII(c09IDN(d))
 		switch dom {
 		case fmt.Sprintf("d%d.example", d):
-			return fmt.Sprintf("%s@%da", digits, d)
+			return fmt.Sprintf("%s@%da%s", digits, d, abs)
 		case c09IDN(d), ia:
-			return fmt.Sprintf("%s@%di", digits, d)
+			return fmt.Sprintf("%s@%di%s", digits, d, abs)
 		}
 	}
 	return "?" + vh.HexRunes(a)
@@ -258,6 +373,13 @@ func c09Remote(t *testing.T, out *vh.Out, op string) {
 	defer tgt.Close()
 	allAddr := map[string]bool{}
 
+	// violations are reported with the op line that carries the observed oracle fields of ALL
+	// transactions, so they are held back until the history is over
+	type c09V struct{ sig, detail string }
+	var pending []c09V
+	violation := func(sig, detail string) { pending = append(pending, c09V{sig, detail}) }
+	var opTxs []string
+
 	var obs []string
 	for _, tx := range txs {
 		tx := tx
@@ -266,7 +388,7 @@ func c09Remote(t *testing.T, out *vh.Out, op string) {
 				s.OnData = func(to []string) int {
 					if len(to) > 0 {
 						w := c09Wire(to[0])
-						if d, err := strconv.Atoi(strings.TrimRight(w[strings.Index(w, "@")+1:], "ia")); err == nil && tx.dataFails(d) {
+						if d, err := strconv.Atoi(strings.TrimRight(w[strings.Index(w, "@")+1:], "ia.")); err == nil && tx.dataFails(d) {
 							return 451
 						}
 					}
@@ -346,12 +468,24 @@ func c09Remote(t *testing.T, out *vh.Out, op string) {
 			}
 		}
 		col := &c09Collector{}
+		keyOf := map[int]int{}
+		for _, r := range tx.rcpts {
+			keyOf[r.id] = c09ConnKey(r.dom, r.form)
+		}
+		hitKeys := map[int]bool{} // connections whose recipients got the buffer's error
+		bodyErrs := 0
 		sc := statusFunc(func(rcpt string, err error) {
 			col.mu.Lock()
 			defer col.mu.Unlock()
 			res := "o"
 			if err != nil {
 				res = "f"
+			}
+			if c09IsBodyErr(err) {
+				bodyErrs++
+				if id, ok := byAddr[rcpt]; ok {
+					hitKeys[keyOf[id]] = true
+				}
 			}
 			if id, ok := byAddr[rcpt]; ok {
 				col.st = append(col.st, fmt.Sprintf("%d=%s", id, res))
@@ -363,11 +497,74 @@ func c09Remote(t *testing.T, out *vh.Out, op string) {
 		})
 		hdr := textproto.Header{}
 		hdr.Add("Subject", "x")
+		var body buffer.Buffer = buffer.MemoryBuffer{Slice: c09Body}
+		var cbuf *c09Buffer
+		switch {
+		case tx.buf == "q":
+			meta.Quarantine = true // a check quarantined the message after the recipients were added
+			out.Stat("remote.body.quarantined")
+		case tx.buf != "-" && len(tx.buf) > 1:
+			k, _ := strconv.Atoi(tx.buf[1:])
+			cbuf = &c09Buffer{okOpens: -1, badReader: -1}
+			if tx.buf[0] == 'o' {
+				cbuf.okOpens = k
+			} else {
+				cbuf.badReader = k
+			}
+			body = cbuf
+		}
 		if len(accepted) > 0 {
-			d.(module.PartialDelivery).BodyNonAtomic(ctx, sc, hdr, buffer.MemoryBuffer{Slice: []byte("hi\r\n")})
+			d.(module.PartialDelivery).BodyNonAtomic(ctx, sc, hdr, body)
 			d.Commit(ctx)
 		} else {
 			d.Abort(ctx)
+		}
+		// the op as reported: with the oracle (which connections met the failing Open / reader)
+		txOp := tx.src
+		if tx.buf != "-" {
+			txOp += ":" + tx.buf
+			if cbuf != nil {
+				var ks []int
+				for k := range hitKeys {
+					ks = append(ks, k)
+				}
+				sort.Ints(ks)
+				var kss []string
+				for _, k := range ks {
+					kss = append(kss, strconv.Itoa(k))
+				}
+				if len(kss) == 0 {
+					kss = []string{"-"}
+				}
+				txOp += ":" + strings.Join(kss, "+")
+			}
+		}
+		opTxs = append(opTxs, txOp)
+		if cbuf != nil && len(accepted) > 0 {
+			nconn := map[int]bool{}
+			for _, r := range tx.rcpts {
+				nconn[c09ConnKey(r.dom, r.form)] = true
+			}
+			withRcpts := map[int]bool{}
+			for id := range accepted {
+				withRcpts[keyOf[id]] = true
+			}
+			out.Stat(fmt.Sprintf("remote.body.%s.connections-%d", tx.buf, min(len(nconn), 4)))
+			switch {
+			case len(hitKeys) == 0:
+				out.Stat(fmt.Sprintf("remote.body.%c.failure-for-no-connection-with-recipients", tx.buf[0]))
+			case len(hitKeys) < len(withRcpts):
+				out.Stat(fmt.Sprintf("remote.body.%c.failure-for-some-connections-only", tx.buf[0]))
+			default:
+				out.Stat(fmt.Sprintf("remote.body.%c.failure-for-every-connection", tx.buf[0]))
+			}
+			// monitor: the buffer's error belongs to the connections that met it. Every failed Open() /
+			// failing reader serves ONE connection: the error may show up in the results of at most that
+			// many connections (whichever they are).
+			events := cbuf.failedOpen + cbuf.readErrs
+			if len(hitKeys) > events {
+				violation("C09/remote-body-error-reported-for-connections-it-did-not-hit", fmt.Sprintf("the buffer failed %d times (Open %d, reader %d), its error was reported for recipients of %d connections; statuses %v", events, cbuf.failedOpen, cbuf.readErrs, len(hitKeys), col.st))
+			}
 		}
 		sort.Strings(col.st)
 		// ground truth: what the next hop holds in transactions it answered 250 to
@@ -388,17 +585,17 @@ func c09Remote(t *testing.T, out *vh.Out, op string) {
 		}
 		for id, n := range accepted {
 			if got[strconv.Itoa(id)] != n {
-				out.Violation("C09/remote-missing-or-duplicate-status", op, fmt.Sprintf("recipient %d accepted %d times, %d results; statuses %v", id, n, got[strconv.Itoa(id)], col.st))
+				violation("C09/remote-missing-or-duplicate-status", fmt.Sprintf("recipient %d accepted %d times, %d results; statuses %v", id, n, got[strconv.Itoa(id)], col.st))
 			}
 		}
 		for k, n := range got {
 			id, err := strconv.Atoi(k)
 			if err != nil && strings.HasPrefix(k, "EARLIER(") {
-				out.Violation("C09/remote-status-for-recipient-of-earlier-transaction", op, fmt.Sprintf("result reported under %s (%d times); statuses %v", k, n, col.st))
+				violation("C09/remote-status-for-recipient-of-earlier-transaction", fmt.Sprintf("result reported under %s (%d times); statuses %v", k, n, col.st))
 			} else if err != nil {
-				out.Violation("C09/remote-status-under-foreign-address", op, fmt.Sprintf("result reported under %s (%d times); statuses %v", k, n, col.st))
+				violation("C09/remote-status-under-foreign-address", fmt.Sprintf("result reported under %s (%d times); statuses %v", k, n, col.st))
 			} else if accepted[id] == 0 {
-				out.Violation("C09/remote-status-for-unaccepted-recipient", op, fmt.Sprintf("result for %d which was not accepted in this transaction; statuses %v", id, col.st))
+				violation("C09/remote-status-for-unaccepted-recipient", fmt.Sprintf("result for %d which was not accepted in this transaction; statuses %v", id, col.st))
 			}
 		}
 		// monitor: a recipient that is not reported as failed was really handed to the next hop in a
@@ -416,7 +613,7 @@ func c09Remote(t *testing.T, out *vh.Out, op string) {
 			a := addrOf[id]
 			conv, cerr := address.ToASCII(a)
 			if !held[a] && !(cerr == nil && held[conv]) {
-				out.Violation("C09/remote-success-reported-for-recipient-the-next-hop-does-not-hold", op, fmt.Sprintf("recipient %d reported as delivered; completed transactions at the next hop hold %d recipients, not this one; statuses %v", id, len(completed), col.st))
+				violation("C09/remote-success-reported-for-recipient-the-next-hop-does-not-hold", fmt.Sprintf("recipient %d reported as delivered; completed transactions at the next hop hold %d recipients, not this one; statuses %v", id, len(completed), col.st))
 			}
 		}
 		for a := range byAddr {
@@ -433,6 +630,10 @@ func c09Remote(t *testing.T, out *vh.Out, op string) {
 		})
 	} else {
 		hop.v.Script.Set(func(s *vsmtp.Script) { out.StatN("remote.server_sessions", s.Sessions); out.StatN("remote.server_txs", len(s.Txs)) })
+	}
+	op = strings.Join(toks[:3], " ") + " " + strings.Join(opTxs, ";")
+	for _, v := range pending {
+		out.Violation(v.sig, op, v.detail)
 	}
 	out.Corr(op, strings.Join(obs, " | "))
 	out.Stat(fmt.Sprintf("remote.txs.%d", len(txs)))
@@ -470,7 +671,7 @@ func c09Perm(r *vh.Rng, n int) []int {
 }
 
 // families of spellings of ONE mailbox (ForLookup-equal addresses)
-var c09Families = []string{"auU", "aU", "iIxX", "cdC", "ix", "xi"}
+var c09Families = []string{"auU", "aU", "iIxX", "cdC", "ix", "xi", "at", "tTa", "tuT", "ij", "yxj", "jyi"}
 
 // c09GenTxRaw generates a transaction for the positional next hop: mailboxes spelled in several
 // ways as different recipients, and/or a connection fault exactly under a RCPT that follows k
@@ -495,7 +696,7 @@ func c09GenTxRaw(r *vh.Rng, nextID *int, respell, fault bool) string {
 	if fault {
 		dom := r.Intn(3)
 		// forms that share one connection key (the domain spelled the same way)
-		forms := r.Pick("a", "a", "alcU", "u", "iI", "x")
+		forms := r.Pick("a", "a", "alcU", "u", "iI", "x", "t", "j", "y")
 		k := r.Intn(3)
 		after := r.Intn(3)
 		if k == 0 && after == 0 {
@@ -543,7 +744,27 @@ func c09GenTxRaw(r *vh.Rng, nextID *int, respell, fault bool) string {
 	}
 	for i := 0; i < extra; i++ {
 		*nextID++
-		insert(fmt.Sprintf("%d.%d.%c.%c", *nextID, r.Intn(3), "aaailuxcC"[r.Intn(9)], acts()))
+		insert(fmt.Sprintf("%d.%d.%c.%c", *nextID, r.Intn(3), "aaailuxcCtTjy"[r.Intn(13)], acts()))
+	}
+	// the message body: a buffer that can be opened k times only (k = 0: not at all), a reader that
+	// fails mid-way for the one connection that gets it, a message quarantined after the recipients were
+	// added; mostly with accepted recipients in several domains (one connection and one Open() each)
+	buf := ""
+	switch {
+	case r.Chance(20):
+		buf = ":o" + strconv.Itoa(r.Intn(4))
+	case r.Chance(9):
+		buf = ":m" + strconv.Itoa(r.Intn(3))
+	case r.Chance(5):
+		buf = ":q"
+	}
+	if buf != "" {
+		for d := 0; d < 3; d++ {
+			if r.Chance(65) {
+				*nextID++
+				insert(fmt.Sprintf("%d.%d.%c.1", *nextID, d, "aaaitx"[r.Intn(6)]))
+			}
+		}
 	}
 	// exact duplicates: one of the recipients is added again (once or twice more) with the very same
 	// address string, next to the first occurrence or anywhere later, each with its own RCPT answer
@@ -583,7 +804,7 @@ func c09GenTxRaw(r *vh.Rng, nextID *int, respell, fault bool) string {
 			df = "d" + strconv.Itoa(r.Intn(3))
 		}
 	}
-	return strings.Join(rs, ",") + ":" + df
+	return strings.Join(rs, ",") + ":" + df + buf
 }
 
 func TestVerifC09Remote(t *testing.T) {
